@@ -154,6 +154,15 @@ func TestC10Rapid(t *testing.T) {
 					rt.Fatalf("C10 violated after the bulk deposits: %v\nhistory:\n%s", err, w.history())
 				}
 			}
+			if rapid.IntRange(0, 24).Draw(rt, "restart") == 0 {
+				// the chain is exported and a new one started from that genesis: counters and token pairs of every bridge,
+				// busy or idle, with or without outputs, are what they were
+				w.restart(rt)
+				c.Class("genesis-round-trip-inside-history")
+				if err := c10Queries(w); err != nil {
+					rt.Fatalf("C10 violated after a restart from the exported genesis: %v\nhistory:\n%s", err, w.history())
+				}
+			}
 			preBal, preDigest := w.balances(), w.e.Digest()
 			var seqBefore uint64
 			st := w.step(rt)
